@@ -76,6 +76,10 @@ CHECKS = {
             "Multi-step worlds in which CAs move between repositories, are dropped, expire or fail to update; after every successful run with cleanup the cache listing (stored points, rsync module directories, RRDP archives) must still contain every stored point whose manifest EE certificate has not expired and every collector copy used by a retained point, and a following offline run reproduces the model's result; a run made to fail by a provoked corrupt RRDP archive must remove nothing that is still needed.",
             "Upper direction only for what must be kept; that unneeded data is eventually removed is probed, not required. The failed-run oracle is restricted to unexpired points and their copies.",
             "deterministic simulation: world histories with moving/expiring CAs and provoked failed runs, keep-set oracle from the reference model", "§5 C40"),
+    "C41": (ENGINE_A, "exploration",
+            "Differential pair of real runs: after a generated (mostly healthy) world history with several repositories the last run is executed twice from the same cache copy and the same simulated instant, once as is and once with a fault placed in one repository (unreachable over RRDP and/or rsync incl. garbage or truncated notification, corrupt local RRDP archive, bad/withheld objects, broken manifests or CRLs, stale or premature manifests). Every difference between the two served data sets must be payload that a CA published in that repository, or a descendant, has ever published (or, under the reject policy, a VRP overlapping their resources); the run with the fault must complete (one retry after a retryable failure allowed, as the server does).",
+            "Attribution of payload to CAs comes from generator ground truth over all versions ever published; payload duplicated inside and outside the subtree is not attributable and excused. The first run of the pair is additionally checked against the reference model.",
+            "deterministic simulation: differential fault injection (same seed, same cache, with/without one repository-level fault), subtree-attribution oracle", "§5 C41"),
 }
 
 ENGINE_C = "C (history): real SharedHistory driven through Server::process_once, queried through PayloadSource and the real HTTP dispatcher"
@@ -145,7 +149,7 @@ CHECKS.update({
 
 CHECKS.update({
     "C32": ("F (cmd): the real vrps / validate / update / server commands as subprocesses with scripted run outcomes", "fault_enumeration",
-            "All sequences over {ok, retryable failure, fatal failure} up to length 4 (server: 3 in quick) for vrps, validate, update and server, each executed by the real Operation::run in a child process with the run outcome forced at the start of ValidationReport::process; the number of started runs, the exit status and a run-count watchdog (exit 97) decide. Exhaustive to the stated bound.",
+            "All sequences over {ok, retryable failure, fatal failure} up to length 4 (server: 5 in thorough) for vrps, validate, update and server, each executed by the real Operation::run in a child process with the run outcome forced at the start of ValidationReport::process; the number of started runs, the exit status and a run-count watchdog (exit 97) decide. Exhaustive to the stated bound.",
             "The child is the harness binary performing exactly what src/main.rs does; no TALs so unforced runs succeed immediately; the server is observed through its run log and exit status only.",
             "deterministic simulation: exhaustive enumeration of run-outcome (fault) sequences to a bound against the real command loop", "§5 C32"),
 })
